@@ -44,6 +44,9 @@ def hashed_ident(path):
     return None if sn is None else py_ident(sn[0].decode() + "_" + sn[1].decode())
 
 def finish_checks(chk, proof, info, disagree, oracle_fail, n_cases, stage="statics"):
+    import statics_lib
+    if statics_lib.HEADER_PROBLEM:
+        oracle_fail.append(([], "a StaticFiles object to which nothing is added does not leave a complete statics module (an empty STATICS): " + statics_lib.HEADER_PROBLEM[0][:200], None))
     chk.notes["disagreements_model_vs_impl"] = len(disagree)
     chk.notes["oracle_failures"] = len(oracle_fail)
     if oracle_fail:
@@ -143,6 +146,18 @@ def run_c07(pid, tier):
         if len(set(vals)) != len(vals):
             oracle_fail.append((hist[i], "a single-byte change of the content did not change the name", None))
     n_cases = len(hist)
+    # (3b) files without an extension are skipped silently: they must leave no trace in the names of the files added after them
+    special = [[("F", "d/README", b"read me first"), ("F", "d/a.css", b"a{}")], [("F", "d/.gitignore", b"target\n"), ("F", "d/b.js", b"b"), ("F", "d/Makefile", b"all:"), ("F", "d/c.png", b"")],
+               [("F", "LICENSE", b"MIT" * 50), ("D", "x.css", b"x"), ("F", "q/c.png", b"png")], [("F", "big/NOTICE", rand_bytes(rng, 5000, "rand")), ("F", "big/s.css", b"s"), ("F", "big/t.css", rand_bytes(rng, 6000, "rand"))]]
+    for h, r in zip(special, run_histories(special)):
+        a, m = r["impl"], r["model"]
+        chk.count(impl_line(h).encode(), True)
+        if a.get("names") != m.get("names"): disagree.append((h, "names", a.get("names"), m.get("names")))
+        vals = sorted(v for _, v in parse_names(a.get("names")))
+        want = sorted(split_name(op[1])[0] + b"-" + py_slug(op[2]) + b"." + split_name(op[1])[1] for op in h if split_name(op[1]))
+        if vals != want:
+            oracle_fail.append((h, "files added after one without an extension are published as %r, expected %r" % (vals, want), None))
+    n_cases += len(special)
     # (4) large contents, implementation against hashlib only (the model's MD5 runs at ~40 KB/s)
     if True:
         big = []
@@ -371,6 +386,23 @@ def run_c08(pid, tier):
             oracle_fail.append((r["key"], "add_files_as(st, %r) over a tree mixing files and sub-directories publishes %r, expected %r" % (to, got, want), None)); continue
         if "model" in run and run["model"].get("fs", {}).get(b"templates/statics.rs") not in (None, st):
             disagree.append((r["key"], "statics.rs of add_files_as", st[-300:].decode("latin1"), ""))
+    # several runs into one OUT_DIR with fewer / shorter statics each time: the module of every run is the module a fresh directory gets
+    scen = []
+    for _ in range(4 if tier == "quick" else 30):
+        fs3 = {"a.css": rand_bytes(rng, 200, "ascii"), "b.js": rand_bytes(rng, 90, "ascii"), "c.txt": b"c"}
+        prog = [('s',), ('g', 'st'), ('d', 'inline.bin', rand_bytes(rng, 300, "rand"))]; prog2 = [('s',), ('g', 'st'), ('d', 'inline.bin', b"\x00")]
+        w = [('W', 'st/' + n, c) for n, c in fs3.items()]
+        scen.append(w + [('R', prog), ('X', 'st/b.js'), ('X', 'st/c.txt'), ('R', prog2)])     # shrinks on the second run
+        scen.append([w[0], ('R', prog2)])                                                       # the same final inputs into a fresh directory
+    rr = build_lib.run_scenarios(scen)
+    for k in range(0, len(rr), 2):
+        two = [x for x in rr[k]["runs"] if x["kind"] == "R"]; one = [x for x in rr[k + 1]["runs"] if x["kind"] == "R"]
+        chk.count(b"shrink%d" % k, True)
+        got = ((two[1]["after"].get(b"templates/statics.rs") or (b"", ""))[0] or b"").replace(rr[k]["base"], b"<BASE>") if len(two) > 1 and two[1]["after"] else b""
+        want = ((one[0]["after"].get(b"templates/statics.rs") or (b"", ""))[0] or b"").replace(rr[k + 1]["base"], b"<BASE>") if one and one[0]["after"] else b"?"
+        if got != want:
+            oracle_fail.append((build_lib.scenario_line(scen[k])[:3000], "after a second run with fewer and shorter statics into the same OUT_DIR the module (%d bytes) is not the one a fresh directory gets (%d bytes)" % (len(got), len(want)),
+                                dict(tail=got[-300:].decode("latin1"))))
     # files read from disk through symbolic links: include_bytes! must name a path at which the OS finds the bytes of the path that was added
     scen = []; wants = []
     for k in ["link", "linkdir", "dotdot"] * (2 if tier == "quick" else 10):
@@ -488,11 +520,15 @@ def run_c09(pid, tier):
         steps = [('W', 'st/' + n, c) for n, c in files.items()] + [('R', prog)]; ws = [dict(files)]
         for _ in range(3):
             k = rng.choice(["same_len", "same_len", "grow", "add", "del"])
+            if k in ("same_len", "grow") and "a.css" not in files: k = "add"
             if k == "same_len": files["a.css"] = bytes([files["a.css"][0] ^ 1]) + files["a.css"][1:]; steps.append(('T', 'st/a.css', files["a.css"]))
             elif k == "grow": files["a.css"] += b"}"; steps.append(('W', 'st/a.css', files["a.css"]))
             elif k == "add": nm = "n%d.png" % len(steps); files[nm] = b"p"; steps.append(('W', 'st/' + nm, b"p"))
-            elif len(files) > 1:
+            elif len(files) > 1 and rng.random() < 0.6:
                 nm = sorted(files)[-1]; del files[nm]; steps.append(('X', 'st/' + nm))
+            else:
+                # everything goes: the next run adds nothing at all
+                steps += [('X', 'st/' + nm) for nm in files]; files.clear()
             steps += [('Z',), ('R', prog)]; ws.append(dict(files))
         scen.append(steps); wants.append(ws)
     for ws, r in zip(wants, build_lib.run_scenarios(scen)):
@@ -566,6 +602,8 @@ def run_c16(pid, tier):
         if len(h) < 2: continue
         k = rng.randint(1, len(h) - 1)
         first = h[0]; ref = first[2] if first[0] == "A" else first[1].rsplit("/", 1)[-1]
+        # a third of the stylesheets refer to a file that was never added: add_sass_file fails, the build script carries on
+        if rng.random() < 0.35: ref = "never-added.png"
         shist.append((h[:k] + [("S", "scss/sheet%d.scss" % len(shist), ref)] + h[k:], k))
     for (h, k), r in zip(shist, run_histories([x[0] for x in shist])):
         a, m = r["impl"], r["model"]
@@ -573,8 +611,10 @@ def run_c16(pid, tier):
         if a.get("names") != m.get("names"):
             disagree.append((h, "get_names() after add_sass_file", str(parse_names(a.get("names"))), str(parse_names(m.get("names")))))
         got = dict(parse_names(a.get("names")))
-        if not a.get("op") or a["op"][k] != "ok": continue
+        # results come one per harness token: the stylesheet's own sits one further on (its source is written by a token of its own)
+        sass_ok = bool(a.get("op")) and len(a["op"]) > k + 1 and a["op"][k + 1] == "ok"
         for i, op in enumerate(h):
+            if op[0] == "S" and not sass_ok: continue
             if op[0] == "S": want = "sheet%d_css" % int(re.search(r"sheet(\d+)", op[1]).group(1))
             else: want = py_ident(op[2]) if op[0] == "A" else hashed_ident(op[1])
             if want.encode() not in got:
